@@ -141,6 +141,9 @@ type checkRun struct {
 	distinct   int
 	notes      []string
 	downgraded []string
+	undecided  []string        // functions whose contract could not be bound at all and that have no search test
+	lenient    map[string]bool // functions translated with some call-site clauses skipped
+	partial    map[string]bool // functions whose contract could not be bound (decided by search or undecided)
 	raceOut    map[string]string
 }
 
@@ -182,7 +185,7 @@ func cmdCheck(args []string) int {
 		fmt.Fprintln(os.Stderr, "bad config:", err)
 		return 2
 	}
-	run := &checkRun{cfg: cfg, tier: *tier, seed: seed, trusted: map[string]bool{}, assump: map[string]bool{},
+	run := &checkRun{cfg: cfg, tier: *tier, seed: seed, trusted: map[string]bool{}, assump: map[string]bool{}, lenient: map[string]bool{}, partial: map[string]bool{},
 		outDir: filepath.Join(verifRoot, "out", id), replayDir: filepath.Join(verifRoot, "replays", id)}
 	run.timeout = 10 * time.Second
 	if *tier == "thorough" {
@@ -243,23 +246,29 @@ func cmdCheck(args []string) int {
 			continue
 		}
 		if err := vc.translate(); err != nil {
-			run.shapeMismatch(fc, qn, err.Error())
-			// salvage: the contract as a whole no longer binds, but the function's safety obligations do not need the
-			// call-site clauses. Re-translate skipping the call-site clauses that cannot be bound and keep only the claimed
-			// safety obligations (loop invariants and postconditions must still bind, otherwise nothing is salvaged).
+			// The contract no longer binds as a whole. Call-site clauses are individually skippable: re-translate leniently
+			// (clauses naming a site or an identifier that no longer exists are dropped and reported as undecided); everything
+			// that still binds is checked as usual, so a change that breaks the property still fails a named obligation,
+			// while a harmless rename only loses the clauses that mention the old name. If even that fails (a loop
+			// invariant, a pre- or postcondition does not bind; the function left the subset), nothing can be decided
+			// deductively: the function's search test decides if it has one, otherwise the function is reported UNDECIDED.
 			vc2 := newFnVC(w, fn, "full")
 			vc2.lenient = true
-			if err2 := vc2.translate(); err2 == nil {
-				n := 0
-				for _, o := range vc2.obls {
-					if o.Kind == "safety" && claimed(fc, o) {
-						obls = append(obls, o)
-						n++
-					}
-				}
-				run.notes = append(run.notes, fmt.Sprintf("%s: contract does not bind (%s); %d safety obligations salvaged with %d call-site clause(s) skipped", qn, err.Error(), n, len(vc2.skipped)))
+			if err2 := vc2.translate(); err2 != nil {
+				run.shapeMismatch(fc, qn, err.Error())
+				continue
 			}
-			continue
+			fmt.Printf("UNDECIDED %s: %s (%d call-site clause(s) skipped)\n", qn, err.Error(), len(vc2.skipped))
+			run.downgraded = append(run.downgraded, fmt.Sprintf("%s: contract binds only in part (%s); skipped as undecided: %s", qn, err.Error(), strings.Join(vc2.skipped, "; ")))
+			run.lenient[qn] = true
+			if fc.Search != "" {
+				out, failing, _ := run.goTest(fc.Pkg, fc.Search, "", 0)
+				if failing != "" {
+					path := run.writeReplay(qn+"/shape", map[string]interface{}{"obligation": qn + "/shape", "reason": err.Error(), "search_test": fc.Search, "failing_input": json.RawMessage(failing), "test_output": tail(out, 4000), "confirmed": true})
+					run.violation(path, "")
+				}
+			}
+			vc = vc2
 		}
 		// every contracted loop must exist
 		for n := range contractLoops(vc.ct) {
@@ -324,6 +333,20 @@ func cmdCheck(args []string) int {
 	} else if data, err := os.ReadFile(expPath); err == nil {
 		for _, n := range strings.Fields(string(data)) {
 			if !gen[n] {
+				fnName := n
+				if i := strings.Index(n, "/"); i >= 0 {
+					fnName = n[:i]
+				}
+				// a clause that no longer binds is undecided, not violated (see the lenient path above); VERIF_STRICT=1
+				// (used by tools/runall.sh on the unchanged tree) turns every vanished name into a failure, which is how
+				// vacuity regressions of the machinery itself are caught.
+				if os.Getenv("VERIF_STRICT") == "" {
+					if !run.lenient[fnName] && !run.partial[fnName] {
+						fmt.Printf("UNDECIDED %s: obligation is no longer generated (the clause, loop or call site it belongs to vanished)\n", n)
+						run.downgraded = append(run.downgraded, n+": no longer generated; undecided")
+					}
+					continue
+				}
 				run.fail(n, "obligation "+n+" is no longer generated (contracted clause, loop or function vanished)", nil, "")
 			}
 		}
@@ -368,6 +391,12 @@ func cmdCheck(args []string) int {
 		}
 		if o.ExpectSat {
 			run.fail(o.Name, "vacuity: "+o.Text+" is unsatisfiable (contradictory precondition or unreachable return)", o, r.Output)
+			continue
+		}
+		if o.vc != nil && len(o.vc.staleCallees) > 0 {
+			// the proof of this obligation leans on a callee contract that no longer binds to its function: undecided
+			fmt.Printf("UNDECIDED %s: not discharged, but the contract of a callee is stale: %s\n", o.Name, strings.Join(o.vc.staleCallees, "; "))
+			run.downgraded = append(run.downgraded, fmt.Sprintf("%s: not discharged; callee contract stale (%s)", o.Name, strings.Join(o.vc.staleCallees, "; ")))
 			continue
 		}
 		run.failObligation(o, r)
@@ -420,6 +449,9 @@ func (run *checkRun) funcClaim(o *Obligation) *FuncClaim {
 // shapeMismatch: the contract cannot be bound / the function left the subset. Decided by the bounded search if there is one.
 func (run *checkRun) shapeMismatch(fc FuncClaim, qn, why string) {
 	fmt.Printf("SHAPE %s: %s\n", qn, why)
+	if run.partial != nil {
+		run.partial[qn] = true
+	}
 	if fc.Search != "" {
 		out, failing, _ := run.goTest(fc.Pkg, fc.Search, "", 0)
 		if failing != "" {
@@ -430,7 +462,11 @@ func (run *checkRun) shapeMismatch(fc FuncClaim, qn, why string) {
 		run.downgraded = append(run.downgraded, fmt.Sprintf("%s: %s; decided by bounded search %s (clean)", qn, why, fc.Search))
 		return
 	}
-	run.fail(qn+"/shape", "contract of "+qn+" cannot be checked: "+why, nil, "")
+	// no harness can decide it either: the function is undecided (reported in the evidence, never as a violation - a rename
+	// or a restructuring that keeps the behaviour must not raise an alarm)
+	fmt.Printf("UNDECIDED %s: %s (no search test)\n", qn, why)
+	run.downgraded = append(run.downgraded, fmt.Sprintf("%s: %s; undecided (no search test)", qn, why))
+	run.undecided = append(run.undecided, qn)
 }
 
 func (run *checkRun) violation(path, suffix string) {
